@@ -298,11 +298,13 @@ async def _run_app(
 
     runner = AppRunner(app, **kwargs)
 
-    await runner.setup()
-
     sites: list[BaseSite] = []
 
     try:
+        # Inside the try: a startup step that fails must not leave the
+        # cleanup contexts that already started without their cleanup.
+        await runner.setup()
+
         if host is not None:
             if isinstance(host, str):
                 sites.append(
